@@ -87,8 +87,12 @@ def run(ctx):
                 eng.kill()
     # `go depth N` for LARGE N on tiny positions (iterations are instant; long pawn-move lines reach the ply cap of 255 inside
     # the tree): every depth 1..N must still be reported (C14_depth_only / C14_chess_depth_only hold for every N <= 255)
+    # (bare kings: the cached moves cycle, so the PV of iteration N is N moves long — seeded change r7C14: a PV cut at 128 entries
+    # whose tail was not taken back leaves the board the next PV is read from displaced)
     deep_positions = ["fen 8/1R6/2N2P2/2kP4/2P4P/3P4/8/6K1 w - - 1 94 moves f6f7 c5d6", "fen 7k/5Q2/6K1/8/8/8/8/8 w - - 0 1",
-                      "fen 6k1/5ppp/8/8/8/8/8/R3K3 w - - 0 1", "fen k7/p1K5/P7/8/8/8/8/1R6 w - - 0 1"]
+                      "fen 6k1/5ppp/8/8/8/8/8/R3K3 w - - 0 1", "fen k7/p1K5/P7/8/8/8/8/1R6 w - - 0 1",
+                      "fen 8/8/8/4k3/8/8/4K3/8 w - - 0 1", "fen 8/8/8/4k3/8/8/4K3/7n b - - 0 1"]
+    deep_pv_lines = []
     deep_ns = [255, 254, 128] if ctx["tier"] == "quick" else [255, 254, 253, 200, 128, 64]
     deep_runs = 0
     for pos in deep_positions:
@@ -107,6 +111,10 @@ def run(ctx):
                 out = eng.lines()[before:idx + 1]
                 parsed = [(l, UG.parse_info(l)) for l in out if l.startswith("info")]
                 depths = [di["depth"] for l, di in parsed if UG.iteration_report(di)]
+                base_fen, _, base_ms = pos[4:].partition(" moves ")
+                for l, di in parsed:
+                    if di is not None and di.get("pv"):
+                        deep_pv_lines.append((base_fen, base_ms.split(), di["pv"], "position " + pos, n, l))
                 bad = [l for l, di in parsed if di is None]
                 if bad or depths != list(range(1, n + 1)):
                     missing = sorted(set(range(1, n + 1)) - set(depths))[:10]
@@ -122,6 +130,22 @@ def run(ctx):
                 if rc is None:
                     eng.kill()
     cov["deep_depth_only_runs"] = deep_runs
+    # every PV of those long runs is played through the engine's own legal-move generator (driver `playable`; that generator is C01's)
+    if deep_pv_lines:
+        rc, so, se = C.driver(["playable"], "".join("%s | %s\n" % (f, " ".join(ms + pv)) for f, ms, pv, _, _, _ in deep_pv_lines), timeout=900)
+        res = so.split()
+        if rc != 0 or len(res) != len(deep_pv_lines):
+            rp = C.write_replay(prop, {"broken": "PV replay of the long runs (driver `playable`)", "stderr": (se or "")[-500:]})
+            violations.append({"replay": rp, "no_input": True})
+        else:
+            for (f, ms, pv, poscmd, n, l), r_ in zip(deep_pv_lines, res):
+                if r_ != "-1":
+                    rp = C.write_replay(prop, {"kind": "reported PV is not a sequence of legal moves (long run)", "position": poscmd, "N": n,
+                                               "first_illegal_move_index": r_, "line": l[:400],
+                                               "replay_cmd": "printf '%s\\ngo depth %d\\n' | (cat; sleep 20) | %s | grep 'depth %s '" % (poscmd, n, C.ENGINE, l.split()[2])})
+                    violations.append({"replay": rp})
+                    break
+        cov["deep_run_pvs_replayed"] = len(deep_pv_lines)
     # game-like sequences in ONE process (the cache is kept between moves): play the engine's own best move, search again
     games = [("fen 6k1/1R3p2/6p1/2Bp3p/3P2q1/P7/1P2rQ1K/5R2 b - - 4 44", []), ("startpos", ["e2e4", "e7e5", "g1f3"]),
              ("fen r3k2r/p1ppqpb1/bn2pnp1/3PN3/1p2P3/2N2Q1p/PPPBBPPP/R3K2R w KQkq - 0 1", []),
